@@ -43,8 +43,8 @@ func (w *World) sendAnchors() *sendAnchors {
 	a.regGetPID = w.Method("actor", "Registry", "GetPID")
 	// the private dispatcher: the method of Engine called by Send with (pid, msg, nil)
 	if a.eSend != nil {
-		for _, b := range a.eSend.Blocks {
-			for _, in := range b.Instrs {
+		for _, in := range w.insOf(a.eSend) {
+			{
 				if c := callOf(in); c != nil && c.StaticCallee() != nil && len(c.Args) == 4 {
 					a.esend = c.StaticCallee()
 				}
@@ -52,8 +52,8 @@ func (w *World) sendAnchors() *sendAnchors {
 		}
 	}
 	if a.esend != nil {
-		for _, b := range a.esend.Blocks {
-			for _, in := range b.Instrs {
+		for _, in := range w.insOf(a.esend) {
+			{
 				if c := callOf(in); c != nil && c.StaticCallee() != nil && len(c.Args) == 2 && c.StaticCallee().Signature.Results().Len() == 1 {
 					if bt, ok := c.StaticCallee().Signature.Results().At(0).Type().(*types.Basic); ok && bt.Kind() == types.Bool {
 						a.eIsLocal = c.StaticCallee()
@@ -159,7 +159,7 @@ func checkC01(w *World, r *Report) {
 	}
 	// Push stores its parameter into the ring on every path
 	if push := w.Method("ringbuffer", "RingBuffer", "Push"); push != nil {
-		g := w.FG(push)
+		g := w.FGI(push)
 		st := make([]bool, len(g.ins))
 		for i, in := range g.ins {
 			if s, ok := in.(*ssa.Store); ok && w.pathOf(s.Val) == "P1" {
@@ -173,7 +173,7 @@ func checkC01(w *World, r *Report) {
 	}
 	// delivery function: Context.message <- env.Msg, Context.sender <- env.Sender before the delivery
 	{
-		g := w.FG(pr.deliverFn)
+		g := w.FGI(pr.deliverFn)
 		msgSt := make([]bool, len(g.ins))
 		sndSt := make([]bool, len(g.ins))
 		for i, in := range g.ins {
@@ -281,7 +281,7 @@ func loopExitEdges(w *World, g *FG) []Edge {
 
 // checkBatchLoop implements C01.R4 on Processer.Invoke's implementation.
 func checkBatchLoop(w *World, r *Report, pr *procRoles) {
-	g := w.FG(pr.invoke)
+	g := w.FGI(pr.invoke)
 	key := fname(pr.invoke)
 	site := w.fnPos(pr.invoke)
 	// the per-element delivery: call of the delivery function whose envelope argument is P1[idx]
@@ -419,7 +419,7 @@ func checkC09(w *World, r *Report) {
 		excuse: func(g *FG) []Edge { _, h := w.registryEdges(g); return h },
 		only:   func(g *FG) []Edge { m, _ := w.registryEdges(g); return m }})
 	{
-		g := w.FG(a.eSendLocal)
+		g := w.FGI(a.eSendLocal)
 		miss, hit := w.registryEdges(g)
 		ok := len(miss) > 0 && len(hit) > 0
 		PS := w.Nodes(g, Ev{Name: "ps", M: a.evProcSend.M, Shallow: true}, false)
@@ -439,7 +439,7 @@ func checkC09(w *World, r *Report) {
 	}
 	// R2
 	{
-		g := w.FG(a.esend)
+		g := w.FGI(a.esend)
 		nilPid, _, _, nonLocal, noRemote, hasRemote := w.dispatcherEdges(a, g)
 		ok := len(nilPid) > 0
 		for _, n := range members(reachFromEdges(g, nilPid, nil)) {
@@ -470,8 +470,8 @@ func checkC09(w *World, r *Report) {
 			only:   func(g *FG) []Edge { return intersectEdges(g, nonLocal, hasRemote) }})
 		// isLocalMessage compares the engine address with the PID's address
 		okL := true
-		for _, b := range a.eIsLocal.Blocks {
-			for _, in := range b.Instrs {
+		for _, in := range w.insOf(a.eIsLocal) {
+			{
 				if ret, ok := in.(*ssa.Return); ok {
 					var leaves []ssa.Value
 					phiLeaves(ret.Results[0], map[ssa.Value]bool{}, &leaves)
@@ -555,13 +555,13 @@ func checkForwardLoop(w *World, r *Report, es *ssa.Function, a *sendAnchors, rul
 	// the forwarding loop may live in a private helper of the event stream
 	if h := w.holder(es, func(f *ssa.Function) bool { return len(w.callsIn(f, EvCall("Forward", a.cForward))) > 0 }); h != nil && h != es {
 		// the helper is reached from Receive on every path that is neither a subscription nor an unsubscription
-		eg := w.FG(es)
+		eg := w.FGI(es)
 		H := w.Nodes(eg, EvCall("helper", h), true)
 		if anyOf(H) {
 			es = h
 		}
 	}
-	g := w.FG(es)
+	g := w.FGI(es)
 	key := fname(es) + ":forward-each-subscriber"
 	what := "the default case forwards the event once to every subscriber (no early exit)"
 	sites := w.callsIn(es, EvCall("Forward", a.cForward))
@@ -629,7 +629,7 @@ func checkC10(w *World, r *Report) {
 
 	// R2
 	{
-		g := w.FG(a.regAdd)
+		g := w.FGI(a.regAdd)
 		site := w.fnPos(a.regAdd)
 		var lookupN, insN []int
 		for n, in := range g.ins {
@@ -732,8 +732,8 @@ func checkC10(w *World, r *Report) {
 			if !w.isLib(fn) {
 				continue
 			}
-			for _, b := range fn.Blocks {
-				for _, in := range b.Instrs {
+			for _, in := range w.insOf(fn) {
+				{
 					wr := false
 					switch x := in.(type) {
 					case *ssa.MapUpdate:
@@ -759,7 +759,7 @@ func checkC10(w *World, r *Report) {
 	}
 	// Remove deletes pid.ID under the lock; get looks up pid.ID
 	{
-		g := w.FG(a.regRemove)
+		g := w.FGI(a.regRemove)
 		ok := false
 		for _, in := range g.ins {
 			if c, isC := in.(*ssa.Call); isC {
@@ -770,8 +770,8 @@ func checkC10(w *World, r *Report) {
 		}
 		r.Check(ok, "C10.R5", fname(a.regRemove)+":deletes-pid.ID", "Remove deletes the entry keyed by pid.ID", w.fnPos(a.regRemove), "Remove does not delete lookup[pid.ID]: a stopped id can never be spawned again (or another id is evicted)")
 		okG := false
-		for _, b := range a.regGet.Blocks {
-			for _, in := range b.Instrs {
+		for _, in := range w.insOf(a.regGet) {
+			{
 				if lk, isL := in.(*ssa.Lookup); isL && w.pathOf(lk.X) == "P0.lookup" && w.pathOf(lk.Index) == "P1.ID" {
 					okG = true
 				}
@@ -789,7 +789,7 @@ func checkC10(w *World, r *Report) {
 		w.checkRow(r, row{rule: "C10.R5", fn: spawn, callee: EvCall("SpawnProc", spawnProc), name: "Engine.SpawnProc", args: []string{"P0", "re:call:actor\\.newProcess\\(P0,call:actor\\.DefaultOpts\\(P1\\)\\)"}, why: why})
 		if spawn != nil {
 			// kind stored, every option applied to the options being built
-			sg := w.FG(spawn)
+			sg := w.FGI(spawn)
 			kind, opts := false, false
 			for _, in := range sg.ins {
 				if st, ok := in.(*ssa.Store); ok {
@@ -809,7 +809,7 @@ func checkC10(w *World, r *Report) {
 	// R6: the id is released when the actor stops (even if its Stopped handler panics)
 	r.Rule("C10.R6", "the stop function unregisters the actor on every path, before Stopped is delivered", 1)
 	if pr := w.findProcRoles(); !pr.fail(r, "C10.R6") {
-		sg := w.FG(pr.stopFn)
+		sg := w.FGI(pr.stopFn)
 		Rm := w.Nodes(sg, EvCall("Registry.Remove", a.regRemove), true)
 		ok := sg.AfterEntry(Rm)
 		for _, d := range members(w.Nodes(sg, pr.evDeliver(), false)) {
@@ -829,8 +829,8 @@ func checkC10(w *World, r *Report) {
 			if !w.isLib(fn) {
 				continue
 			}
-			for _, b := range fn.Blocks {
-				for _, in := range b.Instrs {
+			for _, in := range w.insOf(fn) {
+				{
 					if c := callOf(in); c != nil && !c.IsInvoke() && c.StaticCallee() == nil && strings.HasSuffix(w.pathOf(c.Value), ".Producer") {
 						n++
 						if fn != pstart {
@@ -848,8 +848,8 @@ func checkC10(w *World, r *Report) {
 		sep := ""
 		np := w.Func("actor", "newProcess")
 		if np != nil {
-			for _, b := range np.Blocks {
-				for _, in := range b.Instrs {
+			for _, in := range w.insOf(np) {
+				{
 					if c := callOf(in); c != nil && c.StaticCallee() != nil && c.StaticCallee().Name() == "NewPID" && len(c.Args) == 2 {
 						sep = w.pathOf(c.Args[1])
 					}
@@ -873,7 +873,7 @@ func checkC10(w *World, r *Report) {
 			if gp == nil {
 				continue
 			}
-			gg := w.FG(gp)
+			gg := w.FGI(gp)
 			isNil, nonNil := w.nilEdges(gg, "re:call:\\(\\*actor\\.Registry\\)\\.getByID\\(.*\\)")
 			okP := len(isNil) > 0 && len(nonNil) > 0
 			for _, x := range gg.returns {
@@ -901,8 +901,8 @@ func checkC10(w *World, r *Report) {
 		r.Check(okC, "C10.R5", "Context.GetPID:key", "Context.GetPID looks up its argument in the engine's registry", w.fnPos(cg), "Context.GetPID does not look up its id argument")
 		// getByID reads lookup[id]
 		okB := false
-		for _, b := range a.regGetByID.Blocks {
-			for _, in := range b.Instrs {
+		for _, in := range w.insOf(a.regGetByID) {
+			{
 				if lk, isL := in.(*ssa.Lookup); isL && w.pathOf(lk.X) == "P0.lookup" && w.pathOf(lk.Index) == "P1" {
 					okB = true
 				}
@@ -924,8 +924,8 @@ func isRegistryMap(w *World, m ssa.Value, reg *types.Named) bool {
 // returnsOnly2: every return yields one of the alternatives.
 func (w *World) returnsOnly2(fn *ssa.Function, alts ...string) (bool, string) {
 	n := 0
-	for _, b := range fn.Blocks {
-		for _, in := range b.Instrs {
+	for _, in := range w.insOf(fn) {
+		{
 			if ret, ok := in.(*ssa.Return); ok && len(ret.Results) == 1 {
 				n++
 				p := w.pathOf(ret.Results[0])
@@ -969,7 +969,7 @@ func checkC11(w *World, r *Report) {
 	}
 	// R1
 	{
-		g := w.FG(a.eRequest)
+		g := w.FGI(a.eRequest)
 		site := w.fnPos(a.eRequest)
 		respPath := "call:actor.NewResponse(P0,P3)"
 		okAdd := w.checkRow(r, row{rule: "C11.R1", fn: a.eRequest, callee: EvCall("Registry.add", a.regAdd), name: "Registry.add", args: []string{"P0.Registry", respPath},
@@ -1000,7 +1000,7 @@ func checkC11(w *World, r *Report) {
 	checkSenderFresh(w, r, "C11.R2")
 	// R3
 	{
-		g := w.FG(result)
+		g := w.FGI(result)
 		site := w.fnPos(result)
 		// deferred closure removes r.pid on all its paths; the defer is registered before anything can block
 		var dn []int
@@ -1015,7 +1015,7 @@ func checkC11(w *World, r *Report) {
 			}
 			evRem := EvCall("Registry.Remove", a.regRemove)
 			if body != nil && w.inMod[body] {
-				bg := w.FG(body)
+				bg := w.FGI(body)
 				if bg.AfterEntry(w.Nodes(bg, evRem, true)) {
 					for _, ci := range w.callsIn(body, evRem) {
 						if strings.HasSuffix(w.pathOf(ci.Common().Args[1]), ".pid") {
@@ -1115,7 +1115,7 @@ func checkC11(w *World, r *Report) {
 	}
 	// R4
 	{
-		g := w.FG(rsend)
+		g := w.FGI(rsend)
 		ok := false
 		n := 0
 		blocking := false
@@ -1147,8 +1147,8 @@ func checkC11(w *World, r *Report) {
 			"a blocking send on the one-slot result channel: a responder (or a remote peer's stream reader) that replies twice before Result() is read blocks forever")
 		// constructor
 		okC, okP := false, false
-		for _, b := range newResp.Blocks {
-			for _, in := range b.Instrs {
+		for _, in := range w.insOf(newResp) {
+			{
 				if al, isA := in.(*ssa.Alloc); isA {
 					if n, _ := structOf(al.Type()); sameNamed(n, respT) {
 						fs, lit := w.litFields(al)
@@ -1243,7 +1243,7 @@ func checkC12(w *World, r *Report) {
 		excuse: func(g *FG) []Edge { n, _ := w.nilEdges(g, "P0.eventStream"); return n }})
 
 	// R2 / R3
-	g := w.FG(es)
+	g := w.FGI(es)
 	st, _ := esT.Underlying().(*types.Struct)
 	var subsField *types.Var
 	for i := 0; st != nil && i < st.NumFields(); i++ {
@@ -1379,7 +1379,7 @@ func checkC12(w *World, r *Report) {
 		}
 		// Started: after the Started delivery in Start
 		{
-			sg := w.FG(pr.start)
+			sg := w.FGI(pr.start)
 			E := w.Nodes(sg, w.evBroadcast("actor", "ActorStartedEvent"), true)
 			var D []int
 			for _, d := range members(w.Nodes(sg, pr.evDeliver(), false)) {
@@ -1414,7 +1414,7 @@ func checkC12(w *World, r *Report) {
 			r.Check(ok, "C12.R4", "ActorStartedEvent", "ActorStartedEvent{PID: p.pid} is published after Started was handled, on every start and restart", w.fnPos(pr.start), "a (re)start does not publish ActorStartedEvent for its own pid")
 		}
 		for _, o := range []evOb{{pr.stopFn, "ActorStoppedEvent", "all"}} {
-			og := w.FG(o.fn)
+			og := w.FGI(o.fn)
 			E := w.Nodes(og, w.evBroadcast("actor", o.typ), true)
 			ok := og.AfterEntry(E)
 			for _, e := range members(w.Nodes(og, Ev{Name: "x", M: w.evBroadcast("actor", o.typ).M, Shallow: true}, false)) {
@@ -1427,7 +1427,7 @@ func checkC12(w *World, r *Report) {
 		}
 		// Restarted / MaxRestartsExceeded: in the restart function, every counted restart / the exhausted edge
 		{
-			rg := w.FG(pr.restartFn)
+			rg := w.FGI(pr.restartFn)
 			E := w.Nodes(rg, w.evBroadcast("actor", "ActorRestartedEvent"), false)
 			X := w.Nodes(rg, w.evBroadcast("actor", "ActorMaxRestartsExceededEvent"), false)
 			okR := anyOf(E)
@@ -1447,9 +1447,9 @@ func checkC12(w *World, r *Report) {
 		}
 		// DuplicateId / DeadLetter (two sites)
 		{
-			ag := w.FG(a.regAdd)
+			ag := w.FGI(a.regAdd)
 			r.Check(anyOf(w.Nodes(ag, w.evBroadcast("actor", "ActorDuplicateIdEvent"), false)), "C12.R4", "ActorDuplicateIdEvent", "a duplicate spawn publishes ActorDuplicateIdEvent (edge-exactness: C10.R2)", w.fnPos(a.regAdd), "no ActorDuplicateIdEvent in Registry.add")
-			lg := w.FG(a.eSendLocal)
+			lg := w.FGI(a.eSendLocal)
 			miss, _ := w.registryEdges(lg)
 			DL := w.Nodes(lg, w.evBroadcast("actor", "DeadLetterEvent"), true)
 			ok := len(miss) > 0
@@ -1462,7 +1462,7 @@ func checkC12(w *World, r *Report) {
 			r.Check(ok, "C12.R4", "DeadLetterEvent:SendLocal", "an undeliverable local send publishes DeadLetterEvent", w.fnPos(a.eSendLocal), "SendLocal's miss edge can return without DeadLetterEvent")
 			spp := w.Method("actor", "Engine", "sendPoisonPill")
 			if spp != nil {
-				pg := w.FG(spp)
+				pg := w.FGI(spp)
 				miss, _ := w.registryEdges(pg)
 				DL := w.Nodes(pg, w.evBroadcast("actor", "DeadLetterEvent"), true)
 				ok := len(miss) > 0
